@@ -48,10 +48,10 @@ NAME_CASES = list(gen.ENUMS["NameCase"])
 
 def gen_sources(rng, salt, kind):
     if kind == "xsd":
-        ss = xsdgen.XsdGen(rng, salt, hostile=False, max_types=5).schema_set()
+        ss = xsdgen.XsdGen(rng, salt, hostile=False, max_types=5, nest_p=0.25, cycle_p=0.4).schema_set()
         return xsdgen.Renderer(ss).render(), ["main.xsd"], sorted(ss.features)
     if kind == "xsd-big":
-        ss = xsdgen.XsdGen(rng, salt, hostile=False, max_types=10, depth=3).schema_set()
+        ss = xsdgen.XsdGen(rng, salt, hostile=False, max_types=10, depth=3, nest_p=0.3, cycle_p=0.6).schema_set()
         return xsdgen.Renderer(ss).render(), ["main.xsd"], sorted(ss.features)
     if kind == "xsd-hostile":
         ss = xsdgen.XsdGen(rng, salt, hostile=True, max_types=5).schema_set()
@@ -73,7 +73,7 @@ def gen_options(rng, cli_only=False):
     cfg = {}
     if rng.random() < 0.85:
         cfg["output.structure_style"] = rng.choice(["filenames", "namespaces", "clusters", "single-package", "namespace-clusters"])
-    for k, p in (("output.compound_fields.enabled", 0.4), ("output.wrapper_fields", 0.3), ("output.unnest_classes", 0.3), ("output.relative_imports", 0.3),
+    for k, p in (("output.compound_fields.enabled", 0.5), ("output.wrapper_fields", 0.3), ("output.unnest_classes", 0.3), ("output.relative_imports", 0.3),
                  ("output.generic_collections", 0.3), ("output.ignore_patterns", 0.2), ("output.format.slots", 0.25), ("output.format.frozen", 0.25), ("output.format.unsafe_hash", 0.15)):
         if rng.random() < p:
             cfg[k] = True
@@ -145,6 +145,10 @@ def check(ctx, seed, kind):
         return
     cfg = gen_options(rng)
     cfg_cli = gen_options(rng, cli_only=True)
+    if any(f.startswith("type-cycle") for f in feats) and rng.random() < 0.6:
+        # reference cycles matter for the cluster structure styles (strongly connected classes share a module)
+        cfg["output.structure_style"] = rng.choice(["clusters", "namespace-clusters"])
+        cfg_cli["output.structure_style"] = rng.choice(["clusters", "namespace-clusters"])
     w = {"fn": "check", "seed": seed, "kind": kind}
     base_kind = kind.split("-")[0] if kind.startswith("xsd") else {"xml-regular": "xml-samples", "json-regular": "json-samples"}.get(kind, kind)
     ctx.feature(f"source:{base_kind}", *[f"feat:{f}" for f in feats], *[f"opt:{k}={v}" for k, v in cfg.items() if k.startswith("output.") and not isinstance(v, list)])
@@ -253,7 +257,7 @@ def run_shard(ctx):
     rng = ctx.rng
     if ctx.shard == 0:
         init_config_idempotent(ctx)
-    n = ctx.per_shard(ctx.pick(56, 1400))
+    n = ctx.per_shard(ctx.pick(84, 1400))
     k = 0
     while k < n and (ctx.time_left() > 0 or len(ctx.fingerprints) < MIN_DISTINCT[ctx.tier] // ctx.nshards + 1):
         kind = KINDS[(k + ctx.shard) % len(KINDS)]
